@@ -5,9 +5,15 @@
 S=/verif/seeded/$1; ID=$2; shift 2
 W=/tmp/mutrepo_$$; O=/tmp/mutout_$$
 git -C /repo worktree add -q --detach $W HEAD || exit 2
-git -C $W apply $S/patch.diff || { echo "patch does not apply"; git -C /repo worktree remove --force $W; exit 2; }
+if ! git -C $W apply $S/patch.diff 2>/dev/null; then
+  if ! (cd $W && patch -p1 -s --no-backup-if-mismatch -F 3 < $S/patch.diff >/dev/null 2>&1); then
+    echo "MUTANT $(basename $S) check=$ID: patch does not apply to the current tree (the mutated code was changed by a fix)"
+    git -C /repo worktree remove --force $W; exit 3
+  fi
+fi
+(cd $W && PATH=/opt/veriftools/go1.26.8/bin:$PATH GOTOOLCHAIN=local GOFLAGS=-mod=mod go build ./... >/dev/null 2>&1) || { echo "MUTANT $(basename $S) check=$ID: does not build on the current tree"; git -C /repo worktree remove --force $W; exit 3; }
 mkdir -p $O
 cd /verif && VERIF_REPO=$W VERIF_OUT=$O timeout 2400 ./bin/verif check $ID "$@" > $O/log 2>&1; rc=$?
 echo "MUTANT $(basename $S) check=$ID exit=$rc $(grep -c '^VIOLATION' $O/log) violation line(s)"
-grep -m4 "^VIOLATION\|^  harness=\|^INCONCLUSIVE\|^ENGINE" $O/log | cut -c1-260
+grep -m3 "^VIOLATION\|^  harness=\|^INCONCLUSIVE\|^ENGINE" $O/log | cut -c1-260
 git -C /repo worktree remove --force $W; rm -rf $O
